@@ -116,7 +116,7 @@ func decode(r *rec, model map[string]string) {
 	case "time":
 		sec := int64(DecodeBV(model[r.Sym+"!sec"]))
 		nsec := int64(DecodeBV(model[r.Sym+"!nsec"]))
-		r.t = TimeFromInternal(sec, nsec)
+		r.t = InZone(TimeFromInternal(sec, nsec), model, r.Sym)
 	case "big":
 		r.big = DecodeInt(model[r.Sym])
 	case "param":
@@ -145,4 +145,12 @@ func itoa(i int) string {
 		i /= 10
 	}
 	return s
+}
+
+// InZone re-attaches the fixed zone the model chose for this time (same instant).
+func InZone(t time.Time, model map[string]string, name string) time.Time {
+	if model[name+"!fixedzone"] == "true" {
+		return t.In(time.FixedZone("zz", int(int64(DecodeBV(model[name+"!offset"])))))
+	}
+	return t
 }
